@@ -273,6 +273,10 @@ func c15Read(run *ev.Run, env *c15Env, p c15P, reuse bmc.SensorReader) bmc.Senso
 	h := uint32(p.Raw*131 + p.M*31 + p.B*17 + p.K1*7 + p.K2*3 + p.Lin*1009 + p.Format*77 + p.Flags)
 	h ^= h >> 7
 	rec.SensorMax, rec.SensorMin = uint8(h), uint8(h>>8)
+	rec.OwnerAddress, rec.Channel = ipmi.Address(h>>6), ipmi.Channel(h>>10&0xf)
+	rec.OutputType, rec.SensorType = ipmi.OutputType(h>>2), ipmi.SensorType(h>>12)
+	rec.Entity, rec.Instance = ipmi.EntityID(h>>1), ipmi.EntityInstance(h>>14&0x7f)
+	rec.BaseUnit, rec.ModifierUnit, rec.RateUnit, rec.IsPercentage = ipmi.SensorUnit(h>>3), ipmi.SensorUnit(h>>15), ipmi.RateUnit(h>>5&7), h&8 != 0
 	rec.NominalReading, rec.NormalMax, rec.NormalMin = uint8(h>>5), uint8(h>>11), uint8(h>>3)
 	rec.NominalReadingSpecified, rec.NormalMaxSpecified, rec.NormalMinSpecified = h&1 != 0, h&2 != 0, h&4 != 0
 	rec.Tolerance, rec.Accuracy, rec.AccuracyExp = uint8(h>>9)&0x3f, int16(h>>4)%512, uint8(h>>13)&3
